@@ -1,4 +1,271 @@
+//! S3 — scanner grids (C12): backends × classes × lengths × positions × all 256 byte values ×
+//! placements, pairs of offending positions, and a boundary-value alphabet ^8 on 8-byte buffers.
+//!
+//! Oracle: the cursor stops at the first byte outside the class as written in the property
+//! statement, or at the end of the buffer.
+
+use crate::arena::Place;
+use crate::call::{Backend, Entry, Lane};
+use crate::json;
+use crate::oracle::{hex, printable, Checker};
 use crate::plan::Plan;
-pub fn add_grids(_p: &mut Plan, _q: bool) {}
-pub fn add_alignment_agreement(_p: &mut Plan, _q: bool) {}
-pub fn replay(_t: &str) -> i32 { 0 }
+use crate::runner::{Phase, TaskFn};
+use httparse::_benchable::Bytes;
+use refmodel::{is_tchar, is_target_byte, is_value_byte};
+
+pub const B_SWAR: u8 = 0;
+pub const B_AVX2: u8 = 1;
+pub const B_SSE42: u8 = 2;
+pub const B_DISPATCH: u8 = 3;
+pub const B_NEON: u8 = 4;
+pub const BACKEND_NAMES: [&str; 5] = ["swar", "avx2", "sse4.2", "dispatch", "neon(emulated)"];
+pub const CLASS_NAMES: [&str; 3] = ["target", "header-value", "header-name"];
+
+pub fn in_class(class: u8, b: u8) -> bool {
+    match class {
+        0 => is_target_byte(b),
+        1 => is_value_byte(b),
+        _ => is_tchar(b),
+    }
+}
+
+/// Runs one scanner; None if that (backend, class) does not exist in this build / on this CPU.
+pub fn scan(backend: u8, class: u8, buf: &[u8]) -> Option<usize> {
+    let mut b = Bytes::new(buf);
+    if backend == B_NEON {
+        match class {
+            0 => crate::neon_host::neon::match_uri_vectored(&mut b),
+            1 => crate::neon_host::neon::match_header_value_vectored(&mut b),
+            _ => crate::neon_host::neon::match_header_name_vectored(&mut b),
+        }
+        return Some(b.pos());
+    }
+    if httparse::_verif::scan(backend, class, &mut b) {
+        Some(b.pos())
+    } else {
+        None
+    }
+}
+
+pub fn expected(class: u8, buf: &[u8]) -> usize {
+    buf.iter().position(|&b| !in_class(class, b)).unwrap_or(buf.len())
+}
+
+fn pseudo_lane(backend: u8, class: u8, place: Place) -> Lane {
+    // journal / replay encoding of a scan: entry byte >= 100
+    Lane { entry: Entry::Chunk, cfg: backend, cap: 100 + class as u32, backend: Backend::Native, place }
+}
+
+fn check(ck: &mut Checker, backend: u8, class: u8, data: &[u8], place: Place) {
+    let lane = pseudo_lane(backend, class, place);
+    let mut enc = lane.encode();
+    enc[0] = 100 + class;
+    ck.caller.slot.begin(&enc, data);
+    let buf = ck.caller.inputs.place(data, place);
+    let got = std::panic::catch_unwind(|| scan(backend, class, buf));
+    ck.caller.slot.end();
+    ck.stats.nodes += 1;
+    ck.caller.calls += 1;
+    let exp = expected(class, data);
+    let got = match got {
+        Ok(Some(g)) => g,
+        Ok(None) => return,
+        Err(_) => {
+            report(ck, backend, class, data, place, "the scanner panicked".into(), exp);
+            return;
+        }
+    };
+    let i = if got == data.len() { 0 } else { 1 };
+    ck.stats.outcomes[i][(got % 5).min(4)] += 1;
+    if got != exp {
+        report(ck, backend, class, data, place, format!("stopped at {}", got), exp);
+    }
+}
+
+fn report(ck: &mut Checker, backend: u8, class: u8, data: &[u8], place: Place, got: String, exp: usize) {
+    let lane = pseudo_lane(backend, class, place);
+    ck.relation_tag = "scan";
+    ck.violation(
+        format!("{} scanner for the {} class {}, first out-of-class byte (or end) is at {}", BACKEND_NAMES[backend as usize], CLASS_NAMES[class as usize], got, exp),
+        &lane, data, got, format!("stop at {}", exp), None,
+    );
+    ck.relation_tag = "none";
+}
+
+fn fillers(class: u8) -> [u8; 2] {
+    match class {
+        0 => [b'/', 0xE9],
+        1 => [b'v', b'\t'],
+        _ => [b'n', b'~'],
+    }
+}
+
+fn backends_for(class: u8) -> Vec<u8> {
+    if class == 2 {
+        vec![B_SWAR, B_DISPATCH, B_NEON]
+    } else {
+        vec![B_SWAR, B_AVX2, B_SSE42, B_DISPATCH, B_NEON]
+    }
+}
+
+pub fn add_grids(p: &mut Plan, q: bool) {
+    let lmax = 100usize;
+    let aligns: Vec<usize> = if q { vec![0, 1, 15, 31] } else { (0..32).collect() };
+    let mut tasks: Vec<TaskFn> = Vec::new();
+    // the class tables of the crate must be the classes of the statement
+    tasks.push(Box::new(|ck: &mut Checker| {
+        for b in 0..=255u8 {
+            let t = [httparse::_verif::is_uri_token(b), httparse::_verif::is_header_value_token(b), httparse::_verif::is_header_name_token(b)];
+            for class in 0..3u8 {
+                ck.stats.nodes += 1;
+                if t[class as usize] != in_class(class, b) {
+                    report(ck, B_SWAR, class, &[b], Place::EndFlush, format!("class table says {} for byte {:#04x}", t[class as usize], b), if in_class(class, b) { 1 } else { 0 });
+                }
+            }
+        }
+    }));
+    for class in 0..3u8 {
+        for backend in backends_for(class) {
+            let mut places = vec![Place::EndFlush, Place::StartFlush];
+            places.extend(aligns.iter().map(|&a| Place::Mid(a)));
+            for place in places {
+                for filler in fillers(class) {
+                    tasks.push(Box::new(move |ck: &mut Checker| {
+                        let mut buf = Vec::with_capacity(lmax);
+                        for l in 0..=lmax {
+                            buf.clear();
+                            buf.resize(l, filler);
+                            check(ck, backend, class, &buf, place);
+                            for pos in 0..l {
+                                for v in 0..=255u8 {
+                                    if v == filler {
+                                        continue;
+                                    }
+                                    buf[pos] = v;
+                                    check(ck, backend, class, &buf, place);
+                                }
+                                buf[pos] = filler;
+                                if ck.full() {
+                                    return;
+                                }
+                            }
+                        }
+                    }));
+                }
+            }
+        }
+    }
+    p.phases.push(Phase {
+        label: format!("S3: scanner grid, 5 backends × 3 classes × L≤{} × position × 256 values × 2 fillers × {} placements", lmax, aligns.len() + 2),
+        backend: Backend::Native,
+        tasks,
+    });
+    // pairs of offending positions (first-of-several selection)
+    let mut tasks: Vec<TaskFn> = Vec::new();
+    let lens: Vec<usize> = if q { vec![7, 8, 16, 17, 31, 32, 33, 64, 71] } else { (1..=72).collect() };
+    for class in 0..3u8 {
+        for backend in backends_for(class) {
+            let lens = lens.clone();
+            tasks.push(Box::new(move |ck: &mut Checker| {
+                let bad: [u8; 4] = [0x00, 0x7f, 0x1f, if class == 2 { b':' } else { b'\n' }];
+                let filler = fillers(class)[0];
+                let mut buf = Vec::new();
+                for &l in &lens {
+                    for a in 0..l {
+                        for b in (a + 1)..l {
+                            for &x in &bad {
+                                for &y in &bad {
+                                    buf.clear();
+                                    buf.resize(l, filler);
+                                    buf[a] = x;
+                                    buf[b] = y;
+                                    check(ck, backend, class, &buf, Place::EndFlush);
+                                }
+                            }
+                        }
+                    }
+                    if ck.full() {
+                        return;
+                    }
+                }
+            }));
+        }
+    }
+    p.phases.push(Phase { label: format!("S3: all pairs of offending positions, {} lengths × 4×4 offending bytes", lens.len()), backend: Backend::Native, tasks });
+    // boundary alphabet ^8 on 8-byte buffers: drives the word-at-a-time borrow tricks
+    let sigma: Vec<u8> = if q { vec![0x00, 0x09, 0x1f, 0x20, 0x21, 0x7e, 0x7f, 0x80] } else { vec![0x00, 0x08, 0x09, 0x0a, 0x0d, 0x1f, 0x20, 0x21, 0x3a, 0x7e, 0x7f, 0x80, 0x81, 0xc3, 0xfe, 0xff] };
+    let mut tasks: Vec<TaskFn> = Vec::new();
+    for class in 0..3u8 {
+        for backend in [B_SWAR, B_NEON] {
+            for first in 0..sigma.len() {
+                let sigma = sigma.clone();
+                tasks.push(Box::new(move |ck: &mut Checker| {
+                    let n = sigma.len();
+                    let mut idx = [0usize; 8];
+                    idx[0] = first;
+                    let mut buf = [0u8; 8];
+                    loop {
+                        for i in 0..8 {
+                            buf[i] = sigma[idx[i]];
+                        }
+                        check(ck, backend, class, &buf, Place::EndFlush);
+                        // odometer over positions 1..8
+                        let mut j = 8;
+                        loop {
+                            if j == 1 {
+                                return;
+                            }
+                            j -= 1;
+                            idx[j] += 1;
+                            if idx[j] < n {
+                                break;
+                            }
+                            idx[j] = 0;
+                        }
+                        if ck.full() {
+                            return;
+                        }
+                    }
+                }));
+            }
+        }
+    }
+    p.phases.push(Phase { label: format!("S3: boundary alphabet Σ_b({})^8 on 8-byte buffers, word-at-a-time and NEON-emulated scanners", sigma.len()), backend: Backend::Native, tasks });
+    p.bounds.push(format!(
+        "S3: backends swar/avx2/sse4.2/dispatch/neon(emulated) × classes target/value/name (name: swar, dispatch, neon) × length 0..={} × offending position × all 256 values × 2 fillers × placements end-flush, start-flush, mid-buffer alignments {:?}; pairs of offending positions for lengths {:?}; Σ_b({})^8",
+        lmax, aligns, lens, sigma.len()
+    ));
+}
+
+pub fn replay(text: &str) -> i32 {
+    let backend = json::get_num(text, "config").unwrap_or(0) as u8;
+    let class = (json::get_num(text, "capacity").unwrap_or(100) - 100) as u8;
+    let place = match json::get_num(text, "place").unwrap_or(0) {
+        0 => Place::EndFlush,
+        1 => Place::StartFlush,
+        _ => Place::Mid(json::get_num(text, "place_off").unwrap_or(0) as usize),
+    };
+    let data = json::unhex(&json::get_str(text, "input_hex").unwrap_or_default());
+    let mut arena = crate::arena::Arena::new(data.len() + 8192);
+    let buf = arena.place(&data, place);
+    println!("replaying scan: backend={} class={} placement={:?}", BACKEND_NAMES[backend as usize], CLASS_NAMES[class as usize], place);
+    println!("  input   : {} ({})", printable(&data), hex(&data));
+    let got = scan(backend, class, buf);
+    let exp = expected(class, &data);
+    println!("  stopped : {:?}   expected: {}", got, exp);
+    if class < 3 && data.len() == 1 {
+        let b = data[0];
+        let t = [httparse::_verif::is_uri_token(b), httparse::_verif::is_header_value_token(b), httparse::_verif::is_header_name_token(b)];
+        if t[class as usize] != in_class(class, b) {
+            println!("  VIOLATED: class table disagrees with the statement for byte {:#04x}", b);
+            return 1;
+        }
+    }
+    match got {
+        Some(g) if g != exp => {
+            println!("  VIOLATED: scanner does not stop at the first out-of-class byte");
+            1
+        }
+        _ => 0,
+    }
+}
